@@ -4,6 +4,7 @@ from ..defuse import du_of, walk, peel, callee_name, fmt
 from ..conds import lits_of, status_variant, success_dominates
 from ..callgraph import cg_of
 from ..flows import flow_of
+from ..roles import roles_of
 from ..common import arg_term, contains_call, call_named, field_path, assigns_of_return
 from .. import tables
 from . import c02
@@ -22,6 +23,7 @@ TRUSTED = ["rustc nightly MIR", "BTreeSet/BTreeMap semantics", "C02 (typestate) 
 
 
 def run(facts, res):
+    R = roles_of(facts)
     cg = cg_of(facts)
     res.rule("I1", "commit: one block, parents = previous heads = id-constructor input, returned heads = {new id}, stored block carries that id")
     res.rule("I2", "index rule: same constructors in writer and loader; constants max/0/+1 and 1; enforced on load")
@@ -34,7 +36,7 @@ def run(facts, res):
     du = du_of(c)
     cfg = cfg_of(c)
     # ------------------------------------------------------------------ I1
-    bw = [(bi, t) for bi, t in c.calls() if t.callee is not None and t.callee.name == "write_raw_item"
+    bw = [(bi, t) for bi, t in c.calls() if t.callee is not None and t.callee.name == R.name("raw_write")
           and contains_call(arg_term(c, t, 1, 30), "melda::DeltaId::key")]
     res.floor("I1", "block write in commit", len(bw), 1)
     oks = []
@@ -85,7 +87,7 @@ def run(facts, res):
     # ------------------------------------------------------------------ I2
     ctor = facts.body("melda::DeltaId::new_from_anchors")
     first = facts.body("melda::DeltaId::new")
-    ld = facts.body("melda::Melda::load_raw_delta")
+    ld = R.body("loader")
     users = {}
     for b in (c, ld):
         if b is None:
